@@ -32,6 +32,8 @@
 (*        nfail frame allocations that failed during the call (environment) *)
 (*  reset       end of one case                                             *)
 (*                                                                          *)
+(* Sections of size 0 (the ELF null section, an empty .bss) may appear in   *)
+(* the table; they have no pages.                                           *)
 (* Domain (the property's quantifier): no two sections share a page, a      *)
 (* section lies wholly at/above or wholly below the offset, sections stay    *)
 (* clear of the reserved pages, the temporary page and the recursive window. *)
@@ -66,8 +68,10 @@ SecInfo(off, sec) ==
 
 S0 == [off |-> W!Zero, secs |-> <<>>, rsv |-> <<>>, tmp |-> W!Zero]
 
+\* an empty section (size 0) has no page: nothing is demanded for it and nothing is allowed because of it
 MonCfg(s, e) ==
-  [s |-> [off |-> e.off, secs |-> [i \in 1..Len(e.secs) |-> SecInfo(e.off, e.secs[i])], rsv |-> e.rsv, tmp |-> e.tmp],
+  LET real == SelectSeq(e.secs, LAMBDA x : ~W!IsZero(x.sz)) IN
+  [s |-> [off |-> e.off, secs |-> [i \in 1..Len(real) |-> SecInfo(e.off, real[i])], rsv |-> e.rsv, tmp |-> e.tmp],
    cs |-> <<>>]
 
 InSec(si, p) == W!Le(si.first, p) /\ W!Le(p, si.last)
